@@ -29,6 +29,10 @@ def main(run):
     # one cache directory shared by the keys of several families (a user holding several keys), orphans, cleans by both families in turn
     traces += rc.histories(run, ['indep', 'mixed', 'chain'], range(run.seed * 100 + 80, run.seed * 100 + 80 + (3 if quick else 20)), 16 if quick else 30,
                            reads=False, p_crash=0.2, p_clean=0.3, p_delete=0.15, foreign=foreign, session_kw={'cache': '__shared__'})
+    # the same commands over the REAL S3 adapter with paged listings (page size 2 or 3): confinement and completeness must not depend on
+    # which page of a listing an object appears on (fault-free histories: garbage comes from deletes racing nothing, foreign objects stay)
+    traces += rc.histories(run, ['plain', 'indep', 'mixed'] if quick else rc.ALL_GRAPHS, range(run.seed * 100 + 90, run.seed * 100 + 90 + (2 if quick else 8)),
+                           14 if quick else 25, reads=False, p_clean=0.35, p_delete=0.15, flavour='s3', foreign=foreign)
     rc.validate(run, traces, CLAUSES, label='c08.histories')
     run.coverage['rule'] = ('a case is one command history (key graph x seed, with interrupted commands leaving orphans) or one replayed TLC '
                             'behaviour; non-trivial = more than 10 backend events / more than 2 replayed commands')
